@@ -855,6 +855,140 @@ def distribution_probes(ctx, pp):
 
 
 
+
+# ---------------------------------------------------------------------------- read-assign-read histories
+N_A = 6.02214076e23
+QUANTITIES = ("cross_section", "total_cross_section", "interaction_length", "total_interaction_length")
+CTW_TABLE = {  # CTW 2011 table III, typed independently of the source: (sign of pid, kind) -> c0..c4
+    (1, 1): (-1.826, -17.31, -6.406, 1.431, -17.91), (1, 2): (-1.826, -17.31, -6.448, 1.431, -18.61),
+    (-1, 1): (-1.033, -15.95, -7.247, 1.569, -17.72), (-1, 2): (-1.033, -15.95, -7.296, 1.569, -18.30)}
+GQRS_TABLE = {(1, 1): 5.53e-36, (1, 2): 2.31e-36, (-1, 1): 5.52e-36, (-1, 2): 2.29e-36, (1, 0): 7.84e-36, (-1, 0): 7.80e-36}
+
+
+def reference_quantity(model, q, kind, pid, energy):
+    """The quantity for the CURRENT state from the published formulas (independent of the source)."""
+    sgn = 1 if pid > 0 else -1
+
+    def sigma(k):
+        if model == "GQRS":
+            return GQRS_TABLE[(sgn, k)] * energy ** 0.363
+        c0, c1, c2, c3, c4 = CTW_TABLE[(sgn, k)]
+        L = math.log(math.log10(energy) - c0)
+        return 10 ** (c1 + c2 * L + c3 * L * L + c4 / L)
+    if model == "GQRS":
+        tot = GQRS_TABLE[(sgn, 0)] * energy ** 0.363
+    else:
+        tot = sigma(1) + sigma(2)
+    return {"cross_section": sigma(kind), "total_cross_section": tot,
+            "interaction_length": 1 / (N_A * sigma(kind)), "total_interaction_length": 1 / (N_A * tot)}[q]
+
+
+def run_state_history(pp, model, start, ops):
+    """Execute a history of reads and public assignments on ONE real Particle / Interaction.
+    Returns the first failure text or None.  Every read is judged against the published formula for
+    the current state and against a freshly built interaction with that state."""
+    import random
+    cls = pp.NeutrinoInteraction if model == "default" else getattr(pp, MODELS[model])
+    fmodel = "CTW" if model == "default" else model
+    kinds = {"cc": 1, "nc": 2}
+
+    def build(pidname, energy, kind):
+        with Script([0.5] * 6, [0] * 6, random.Random(7)), np.errstate(all="ignore"):
+            return pp.Particle(pidname, (0, 0, -10), (0, 0, 1), energy, interaction_model=cls, interaction_type=kind)
+    st = dict(start)
+    p = build(st["pid"], st["energy"], st["kind"])
+    for i, op in enumerate(ops):
+        if op[0] == "read":
+            q = op[1]
+            got = float(getattr(p.interaction, q))
+            want = reference_quantity(fmodel, q, kinds[st["kind"]], PIDS[st["pid"]], st["energy"])
+            fresh = float(getattr(build(st["pid"], st["energy"], st["kind"]).interaction, q))
+            if not close(got, want, 1e-9, 0) or got != fresh:
+                return ("step %d: %s = %r for the current state (%s, %s, %r GeV), but the published formula gives %r and a fresh %s interaction "
+                        "with that state gives %r" % (i, q, got, st["pid"], st["kind"], st["energy"], want, model, fresh))
+        elif op[0] == "set":
+            attr, val = op[1], op[2]
+            if attr == "kind":
+                p.interaction.kind = {"enum": getattr(p.interaction.Type, {"cc": "charged_current", "nc": "neutral_current"}[val]),
+                                      "str": val, "int": kinds[val]}[op[3]]
+                st["kind"] = val
+            elif attr == "pid":
+                p.id = {"str": val, "int": PIDS[val], "enum": getattr(pp.Particle.Type, val)}[op[3]]
+                st["pid"] = val
+            elif attr == "energy":
+                p.energy = val
+                st["energy"] = val
+            else:       # inelasticity, em_frac, had_frac: plain attributes that no cross section depends on
+                setattr(p.interaction, attr, val)
+    return None
+
+
+def history_probes(ctx, pp):
+    rng = ctx.rng
+    pidnames = list(PIDS)
+
+    def other(cur, options):
+        return rng.choice([o for o in options if o != cur])
+
+    def change(st, attr):
+        if attr == "kind":
+            return ["set", "kind", other(st["kind"], ["cc", "nc"]), rng.choice(["enum", "str", "int"])]
+        if attr == "pid":
+            return ["set", "pid", other(st["pid"], pidnames), rng.choice(["enum", "str", "int"])]
+        if attr == "energy":
+            return ["set", "energy", float(10 ** rng.uniform(3, 12))]
+        return ["set", attr, rng.random()]
+    attrs = ["kind", "pid", "energy", "inelasticity", "em_frac", "had_frac"]
+    hist = []
+    # systematic: read q, assign a, read q  (and every other quantity) for every attribute and quantity
+    for model in ("GQRS", "CTW", "default"):
+        for a in attrs:
+            for q in QUANTITIES:
+                st = {"pid": rng.choice(pidnames), "kind": rng.choice(["cc", "nc"]), "energy": float(10 ** rng.uniform(3, 12))}
+                ops = [["read", q], change(st, a), ["read", q]] + [["read", q2] for q2 in QUANTITIES if q2 != q]
+                hist.append((model, st, ops))
+    # random interleavings
+    for _ in range(ctx.n(60, 1500)):
+        model = rng.choice(["GQRS", "CTW", "default"])
+        st = {"pid": rng.choice(pidnames), "kind": rng.choice(["cc", "nc"]), "energy": float(10 ** rng.uniform(3, 12))}
+        cur, ops = dict(st), []
+        for _ in range(rng.randint(3, 12)):
+            if rng.random() < 0.55:
+                ops.append(["read", rng.choice(QUANTITIES)])
+            else:
+                o = change(cur, rng.choice(attrs))
+                ops.append(o)
+                if o[1] in cur:
+                    cur[o[1]] = o[2]
+        ops.append(["read", rng.choice(QUANTITIES)])
+        hist.append((model, st, ops))
+    nbad = 0
+    for model, st, ops in hist:
+        ctx.case(key=("state-history", model, json.dumps(st, sort_keys=True), json.dumps(ops)), nontrivial=True)
+        try:
+            bad = run_state_history(pp, model, st, ops)
+        except Exception as e:
+            bad = "raised %r" % (e,)
+        if bad and nbad < 3:
+            nbad += 1
+            # shrink: drop operations while the failure persists
+            cur = list(ops)
+            i = len(cur) - 1
+            while i >= 0:
+                cand = cur[:i] + cur[i + 1:]
+                try:
+                    b2 = run_state_history(pp, model, st, cand)
+                except Exception as e:
+                    b2 = "raised %r" % (e,)
+                if b2:
+                    cur, bad = cand, b2
+                i -= 1
+            ctx.fail("state-history:%s:%s:%s" % (model, json.dumps(st, sort_keys=True), json.dumps(cur)),
+                     "%s interaction, start %s, history %s: %s" % (model, json.dumps(st), json.dumps(cur), bad),
+                     {"kind": "state_history", "model": model, "start": st, "ops": cur})
+    ctx.extra["state_histories"] = {"histories": len(hist), "attributes_assigned": attrs, "quantities": list(QUANTITIES)}
+
+
 # ---------------------------------------------------------------------------- supplementary statistics (thorough tier)
 def published_cdf(model, low, kind, pid, eps, y):
     """Cumulative distribution of the inelasticity, integrated analytically from the published densities
@@ -1029,6 +1163,7 @@ def run(ctx):
     lap("corr_tree")
     probes(ctx, pp, heavy=(not ok) or ctx.thorough or bool(changed))
     distribution_probes(ctx, pp)
+    history_probes(ctx, pp)
     lap("probes")
     if ctx.thorough:
         ks_probes(ctx, pp)
@@ -1056,6 +1191,10 @@ def replay(ctx, obj):
                 break
         print("implementation (fresh draws):", worst)
         return 1
+    if k == "state_history":
+        bad = run_state_history(pp, obj["model"], obj["start"], obj["ops"])
+        print("implementation:", bad or "history consistent")
+        return 1 if bad else 0
     if k == "ks":
         stat, what = ks_evaluate(pp, obj["spec"], obj["n"], obj["seed"])
         print("implementation: %s = %.5f (bound %.5f)" % (what, stat, obj["bound"]))
